@@ -225,7 +225,7 @@ def gen_resource(rng, kind, inputs):
         res.setdefault("status", {})["broken"] = True
     if rng.random() < 0.15:
         res["metadata"]["annotations"] = {"note": "kept"}
-    if rng.random() < 0.02:
+    if rng.random() < 0.04:
         res["metadata"].setdefault("annotations", {})[CRASH_KEY] = "1"
     if rng.random() < 0.1:
         res["spec"]["extra"] = [1, {"k": "v"}]
@@ -975,10 +975,6 @@ async def fix_assertions(env, fn, test, plan, rng, repair=True):
     return ob
 
 
-def label_of(k):
-    return f"c{k}"
-
-
 async def check_test(ctx: Ctx, env: Env, fn, test, rng, cases_out, terms_out, do_derive=True, derive_kinds=None):
     """run T and its derived tests; oracle + snapshot monitor; collect correspondence terms.
     Returns the base observation."""
@@ -1296,7 +1292,7 @@ def distribution(ctx, fn, test, ob):
     ctx.count(f"fn:{fn['name']}")
     n = len(test["cases"])
     ctx.count("len:" + ("1-3" if n <= 3 else "4-8" if n <= 8 else "9-15" if n <= 15 else "16-20"))
-    ctx.count("executed-all" if len(ob["results"]) == n else "stopped-early")
+    ctx.count("run-raised" if ob["raised"] else "executed-all" if len(ob["results"]) == n else "stopped-early")
     for k, tr in enumerate(ob["trace"]):
         c = test["cases"][k]
         ctx.count("kind:" + ["skipped", "inputs-err", "setup-err", "overlay-err", "ran", "crashed"][case_kind(test, k, tr)])
@@ -1344,9 +1340,20 @@ async def areplay(ctx: Ctx, case):
             dterm, _ = to_coq(der, dob)
             cases.append({"test": der, "how": how})
             terms.append(dterm)
-            bad = compare_runs(test, ob, der, dob, how != "variants-moved")
-            if bad:
-                ctx.fail(Failure(signature=f"{how}: {bad[0]}", what=f"{how}: {bad[1]}", case=case))
+            if how == "fold-prefix":
+                # the last case of `test` against the single case of `derived`
+                k = len(test["cases"]) - 1
+                if k < len(ob["results"]) and dob["results"]:
+                    ra, rb = ob["results"][k], dob["results"][0]
+                    for field in ("pass", "outcome", "message", "differences"):
+                        if skey(jsonable(ra[field])) != skey(jsonable(rb[field])):
+                            ctx.fail(Failure(signature=f"fold-prefix: result-{field}",
+                                             what=f"fold-prefix: {field} {ra[field]!r} vs {rb[field]!r}", case=case))
+                            break
+            else:
+                bad = compare_runs(test, ob, der, dob, how != "variants-moved")
+                if bad:
+                    ctx.fail(Failure(signature=f"{how}: {bad[0]}", what=f"{how}: {bad[1]}", case=case))
     finally:
         try:
             await env.teardown()
